@@ -286,8 +286,8 @@ fn fan(def: &CheckDef, tier: Tier, seed: u64, runs: u64, workers: usize, cap_s: 
         runs,
         workers,
         wall_cap: Duration::from_secs(cap_s),
-        hang_s: 90,
-        max_deaths_per_worker: 40,
+        hang_s: simcore::env_u64("VERIF_HANG_S", 30),
+        max_deaths_per_worker: 8,
         stop_on_first_violation: stop_first,
     })
 }
@@ -478,6 +478,8 @@ pub fn check(id: &str, tier: Tier) -> i32 {
     0
 }
 
+/// A query that never returns contradicts C19 (and C01-C03, whose statements require reopening to succeed);
+/// for the other properties it is recorded as an observation and the run is skipped.
 fn def_hang_is_violation(id: &str) -> bool {
-    id != "C07"
+    matches!(id, "C01" | "C02" | "C03" | "C19")
 }
